@@ -41,6 +41,7 @@ pub fn run_line(line: &str, scratch: &str) -> String {
         "build" => by_width!(c, op_build, scratch),
         "hist" => by_width!(c, op_hist, scratch),
         "skf" => by_width!(c, op_skf, scratch),
+        "mkskf" => by_width!(c, op_mkskf),
         "lo_cmd" => op_lo_cmd(c),
         "lo_comp" => op_lo_comp(c),
         "lo_snps" => op_lo_snps(c),
@@ -878,4 +879,10 @@ fn op_lo_graph<IntT: for<'a> UInt<'a>>(c: &Case) -> String {
         .collect();
     s.sort();
     format!("k={} n={} edges={} colours={}", k, names.len(), join(&e), join(&s))
+}
+
+/// `mkskf`: write a table as an .skf file at `out` (for CLI-level checks)
+fn op_mkskf<IntT: for<'a> UInt<'a>>(c: &Case) -> String {
+    make_array::<IntT>(c.usize("k"), c.flag("rc"), c.get("table")).save(c.get("out")).unwrap();
+    "ok".into()
 }
